@@ -13,6 +13,18 @@ def season_crop(ctx, season):
     return ctx.model._param_struct.Seasonal_Crop_List[season]
 
 
+class _Envelope:
+    """Season crop copy for calendar facts, configured crop for the envelope parameters."""
+
+    ENV = ("CCx", "Zmin", "Zmax", "HI0", "dHI0", "Tupp", "Tbase")
+
+    def __init__(self, season_copy, cfg):
+        self._s, self._c = season_copy, cfg
+
+    def __getattr__(self, k):
+        return getattr(self._c if k in _Envelope.ENV else self._s, k)
+
+
 class C05Envelope(Monitor):
     pid = "C05"
 
@@ -20,6 +32,11 @@ class C05Envelope(Monitor):
         self.prev = None  # (season, t, growth row, zgw)
         self.gdd_sum = 0.0
         self.wt = int(ctx.model._param_struct.water_table)
+        # the envelope is the one the USER configured: a fresh Crop built from the spec, not the model's internal
+        # per-season copies (which a defect may have altered)
+        from .. import spec as S
+
+        self.cfg = S.make_crop(ctx.spec["crop"])
 
     def on_transition(self, ctx, pre, post):
         g = post.growth
@@ -38,6 +55,8 @@ class C05Envelope(Monitor):
             return
         season = pre.season if pre.season >= 0 else post.season
         crop = season_crop(ctx, post.season)
+        cfg = self.cfg
+        crop = _Envelope(crop, cfg)
         cc, ccns = float(g[GX["canopy_cover"]]), float(g[GX["canopy_cover_ns"]])
         zr = float(g[GX["z_root"]])
         hi, hiadj = float(g[GX["harvest_index"]]), float(g[GX["harvest_index_adj"]])
